@@ -3,6 +3,7 @@ package main
 import (
 	"fmt"
 	"go/token"
+	"strings"
 
 	"golang.org/x/tools/go/ssa"
 )
@@ -42,10 +43,10 @@ func ruleAztecState(c *Ctx) {
 		n.BindParams(fn, "s", "index")
 		// latch block: the one that reads latchTable
 		var latchBlk *ssa.BasicBlock
-		var lookups []*ssa.Lookup
+		var lookups []ssa.Value
 		var lastSite DeepSite
 		c.P.deepEach(fn, 1, func(s DeepSite) {
-			if lk, ok := s.Ins.(*ssa.Lookup); ok {
+			if lk, ok := tableRead(s.Ins); ok && strings.Contains(NewNormer(c.P).Norm(lk).String(), "aztec.latchTable") {
 				lookups = append(lookups, lk)
 				lastSite = s
 				latchBlk = s.Ins.Block()
@@ -62,7 +63,7 @@ func ruleAztecState(c *Ctx) {
 			last := lookups[len(lookups)-1]
 			got := n.NormAt(lastSite, last).String()
 			want := fmt.Sprintf("idx(idx(global:aztec.latchTable,s.mode),%d)", mv["mode_upper"])
-			c.Check(R, "aztec.(*state).addBinaryShiftChar/latch-entry", last.Pos(), got == want, want, got)
+			c.Check(R, "aztec.(*state).addBinaryShiftChar/latch-entry", last.Pos(), canonAccess(got) == canonAccess(want), want, got)
 		}
 		// new state's fields
 		var obj *ssa.Alloc
@@ -119,11 +120,11 @@ func ruleAztecState(c *Ctx) {
 	if fn := c.theFunc(R, "aztec.(*state).latchAndAppend"); fn != nil {
 		n := NewNormer(c.P)
 		n.BindParams(fn, "s", "mode", "value")
-		var lk *ssa.Lookup
+		var lk ssa.Value
 		var blk *ssa.BasicBlock
 		var lkSite DeepSite
 		c.P.deepEach(fn, 1, func(s DeepSite) {
-			if l, ok := s.Ins.(*ssa.Lookup); ok {
+			if l, ok := tableRead(s.Ins); ok && strings.Contains(NewNormer(c.P).Norm(l).String(), "aztec.latchTable") {
 				lk, blk, lkSite = l, s.Ins.Block(), s
 				if len(s.Path) > 0 {
 					blk = s.Path[0].Block()
@@ -135,7 +136,7 @@ func ruleAztecState(c *Ctx) {
 		} else {
 			c.expectCond(R, "aztec.(*state).latchAndAppend/latch-iff", lk.Pos(), n.ReachCond(fn, nil, blk), "mode != s.mode")
 			got := n.NormAt(lkSite, lk).String()
-			c.Check(R, "aztec.(*state).latchAndAppend/latch-entry", lk.Pos(), got == "idx(idx(global:aztec.latchTable,s.mode),mode)", "latchTable[s.mode][mode]", got)
+			c.Check(R, "aztec.(*state).latchAndAppend/latch-entry", lk.Pos(), canonAccess(got) == "global:aztec.latchTable[s.mode][mode]", "latchTable[s.mode][mode]", got)
 		}
 	}
 	if fn := c.theFunc(R, "aztec.(*state).shiftAndAppend"); fn != nil {
